@@ -132,6 +132,7 @@ private:
         return total_weight;
     }
 
+#ifdef PARMCB_HAVE_TBB
     template<class CycleOutputIterator, bool is_tbb_enabled = ParallelUsingTBB>
     WeightType construct_cycles_for_non_spanner_edges(CycleOutputIterator out,
             typename std::enable_if<is_tbb_enabled>::type* = 0) {
@@ -228,6 +229,7 @@ private:
 
         return total_weight;
     }
+#endif
 
     const Graph &_g;
     const WeightMap &_weight_map;
